@@ -25,35 +25,3 @@ Example C13_nonvacuous :
   1 <= 2 /\ 2 * (W / 2) = W /\ Forall (digit_ok 2) a /\ 3 * 2 <= W.
 Proof. cbv zeta. repeat split; try (vm_compute; congruence). apply Forall_forall. intros x Hx.
   apply in_map_iff in Hx as (i & <- & _). unfold digit_ok. change (2 ^ 2) with 4. apply Z.mod_pos_bound. reflexivity. Qed.
-
-(* ---- supporting theorems the property theorem rests on (generated) ---- *)
-From Coq Require Import ZArith List Bool.
-From NPS Require Import ListAux PySlice NumpySem Scatter BuildIdx XorBroadcast View Index Assign Reduce Scan RaOps Heap Hash HashRun BitArr RLE RLEOps RLE2d DataClass RowsSpec AssignSpec MapSpec Denote Bits BitProof WindowCore DigitSlice WindowProof.
-Import ListNotations.
-Open Scope Z_scope.
-
-Theorem C13_pack_registers :
-  forall (a : list Z) (b : Z),
-       1 <= b -> b * (W / b) = W -> Forall (digit_ok b) a -> Inv a b (Z.to_nat (W / b)) (ba_data (pack a b)).
-Proof. exact pack_registers. Qed.
-Print Assumptions C13_pack_registers.
-
-Theorem C13_window_core :
-  forall M s t : Z,
-       0 <= M ->
-       0 <= s < W ->
-       0 <= t <= W ->
-       Z.land (Z.lor (shr64 (M mod 2 ^ W) s) (shl64 ((M / 2 ^ W) mod 2 ^ W) (W - s))) (2 ^ t - 1) =
-       (M / 2 ^ s) mod 2 ^ t.
-Proof. exact window_core. Qed.
-Print Assumptions C13_window_core.
-
-Theorem C13_digits_slice :
-  forall (b : Z) (ds : list Z) (p w : nat),
-       0 <= b ->
-       Forall (digit_ok b) ds ->
-       (p + w <= length ds)%nat ->
-       (digits_val b ds / 2 ^ (b * Z.of_nat p)) mod 2 ^ (b * Z.of_nat w) =
-       digits_val b (firstn w (skipn p ds)).
-Proof. exact digits_slice. Qed.
-Print Assumptions C13_digits_slice.
